@@ -628,9 +628,19 @@ func explore(P *Prog, fn *ssa.Function, init uint64, evs []Ev, record func(ssa.I
 
 // condPhis: the boolean φs of fn whose value (possibly negated, possibly
 // through further φs) is tested by an If; at most 16 are tracked.
+// trackPhis lets a rule ask for path-resolution of further φs of a function
+// (e.g. a slice variable that is one of two lists depending on the path).
+var trackPhis = map[*ssa.Function][]*ssa.Phi{}
+
 func condPhis(fn *ssa.Function) []*ssa.Phi {
 	var out []*ssa.Phi
 	seen := map[*ssa.Phi]bool{}
+	for _, p := range trackPhis[fn] {
+		if !seen[p] && len(out) < 16 && len(p.Edges) <= 14 {
+			seen[p] = true
+			out = append(out, p)
+		}
+	}
 	var add func(v ssa.Value, depth int)
 	add = func(v ssa.Value, depth int) {
 		v, _ = normCond(v, true)
